@@ -242,3 +242,15 @@ Definition conv_bytes (t : bty) (tok : token) : outcome (res (list byte)) :=
   | BExpr, TExpr s => Val (Ok s)
   | _, _ => type_error tok
   end.
+
+(* IEEE-754 bit pattern -> value (inverse of sf_bits on canonical patterns; every NaN is S754_nan) *)
+Definition sf_of_bits (t : fty) (z : Z) : spec_float :=
+  let p := f_prec t in let w := match t with F32 => 32 | F64 => 64 end in
+  let ebits := w - p in
+  let s := 2 ^ (w - 1) <=? z in
+  let r := z mod 2 ^ (w - 1) in
+  let e := r / 2 ^ (p - 1) in
+  let m := r mod 2 ^ (p - 1) in
+  if e =? 2 ^ ebits - 1 then (if m =? 0 then S754_infinity s else S754_nan)
+  else if e =? 0 then (match m with Zpos mp => S754_finite s mp (3 - f_emax t - p) | _ => S754_zero s end)
+  else S754_finite s (Z.to_pos (m + 2 ^ (p - 1))) (e - (f_emax t - 2) - p).
